@@ -10,7 +10,7 @@ R="$W/r"
 orig=$(grep -o '/tmp/wt[0-9]*/[A-Za-z0-9_]*' "$CMD" | head -1)
 cmd=$(head -1 "$CMD" | sed "s#$orig#$R#g")
 cp "$DEMO" "$R/$(basename "$DEMO")"
-clean() { rm -rf "$R/demo_build" "$R/demo_bin" "$R/bin" "$R/pairing.a" "$R/tests/bin" "$R/tests/pairing.a" "$R/tests/test" "$R/demo"; }
+clean() { rm -rf "$R/_demo" "$R/demo_build" "$R/demo_bin" "$R/bin" "$R/pairing.a" "$R/tests/bin" "$R/tests/pairing.a" "$R/tests/test" "$R/demo"; }
 {
 echo "== seed $ID; repo HEAD $(git -C /repo rev-parse --short HEAD)"
 echo "== demo command: $cmd"
